@@ -310,6 +310,34 @@ fn fam_hex(ctx: &Ctx) {
             chk!(cs, "U128::from_be_hex(len)", &e, Out::v(&w(&U128::from_be_hex(&s))));
             chk!(cs, "U128::from_le_hex(len)", &e, Out::v(&w(&U128::from_le_hex(&s))));
         }
+        // BoxedUint::from_be_hex: exactly precision/4 characters are accepted; any other length is rejected (panic or none,
+        // both count as rejection - only a decoded value for a wrong length is a failure), also with a trailing non-hex byte
+        for prec in [64u32, 128, 192] {
+            let want = (prec / 4) as usize;
+            for len in 0..=want + 9 {
+                for tail in ["a", "g", "/"] {
+                    let mut st: String = "a".repeat(len.saturating_sub(1));
+                    if len > 0 {
+                        st.push_str(tail);
+                    }
+                    let ins: [&[u64]; 1] = [&[prec as u64, len as u64]];
+                    let mut cs = Case::new(l, P, "hex_decode", "Boxed::from_be_hex length", &ins);
+                    cs.extra = Some(format!("string={st:?}"));
+                    let got = guard(|| match Option::<BoxedUint>::from(BoxedUint::from_be_hex(&st, prec)) {
+                        Some(x) => Out::v(&bw(&x)),
+                        None => Out::None,
+                    });
+                    let well_formed = len == want && tail == "a";
+                    let exp = if well_formed { Out::v(&vec![0xaaaa_aaaa_aaaa_aaaau64; (prec / 64) as usize]) } else { Out::None };
+                    // normalise a rejecting panic to `none`
+                    let got = match got {
+                        Err(_) if !well_formed => Ok(Out::None),
+                        g => g,
+                    };
+                    cs.check("Boxed::from_be_hex(len)", if well_formed { "well_formed" } else { "wrong_length_or_digit" }, &exp, got);
+                }
+            }
+        }
     });
 }
 
